@@ -109,6 +109,10 @@ type LockEngine struct {
 	ExtraLockTypes map[string]bool
 	// Handoff: function full name -> entry lockset handed over by the spawner.
 	Handoff map[string]LS
+	// LockOpHook (optional, nil by default): consulted first by lockOp; lets a
+	// property resolve lock operations the engine does not see by itself (e.g.
+	// Lock/Unlock invoked on a sync.Locker value whose mutex it can resolve).
+	LockOpHook func(c ssa.CallInstruction) (id string, kind lockOpKind, ok bool)
 
 	entry        map[*ssa.Function]LS
 	before       map[ssa.Instruction]LS
@@ -128,6 +132,11 @@ func NewLockEngine(p *Prog) *LockEngine {
 
 // lockOp recognises a lock operation and returns the lock identity.
 func (e *LockEngine) lockOp(c ssa.CallInstruction) (id string, kind lockOpKind, ok bool) {
+	if e.LockOpHook != nil {
+		if id, kind, ok := e.LockOpHook(c); ok {
+			return id, kind, true
+		}
+	}
 	obj := calleeObj(c)
 	if obj == nil || c.Common().IsInvoke() {
 		return "", 0, false
